@@ -281,6 +281,8 @@ impl<'a> Machine<'a> {
                 let top = p.code.len();
                 p.code.push(Op::ForTest(s.id, 0));
                 Self::emit_block(p, body);
+                // the increment belongs to the FOR statement (errors are reported there)
+                p.code.push(Op::Mark(s.id));
                 p.code.push(Op::ForNext(s.id, top));
                 let exit = p.code.len();
                 Self::patch(p, top, exit);
